@@ -28,7 +28,8 @@ class PotsMonitor:
     @staticmethod
     def _digest(st):
         a = P.log_accounting(st)
-        return (tuple(a['in_pot']), tuple(a['live']), tuple(a['recv']), tuple(a['front']), a['pooled'], tuple(a['pulled']))
+        return (tuple(a['in_pot']), tuple(a['live']), tuple(a['recv']), tuple(a['front']), a['pooled'], tuple(a['pulled']),
+                tuple(tuple(sorted(P.shown_cards(st.operations, i))) for i in range(st.player_count)))
 
     def init(self, st, ctx):
         return self._digest(st)
@@ -67,7 +68,11 @@ class PotsMonitor:
             if not live[i]:
                 hands.append(None)
                 continue
-            hole = [repr(c) for c in st.hole_cards[i]]
+            # a hand is judged on the cards its owner has turned face up, as the log tells it: cards dealt face up, plus the
+            # known cards of his show records (discards taken out again)
+            hole = P.shown_cards(st.operations, i)
+            if sorted(hole) != sorted(repr(c) for c, up in zip(st.hole_cards[i], st.hole_card_statuses[i]) if up and repr(c) != '??'):
+                ctx.counters['terminals_where_state_and_log_disagree_on_cards_shown'] += 1
             if getattr(self.strength, 'takes_board', False):
                 hands.append([[self.strength(hole, boards[b], t) for t in tn] for b in range(nb)])
             else:
@@ -81,6 +86,29 @@ class PotsMonitor:
                             nb, len(tn), C.DIVMODS.get(ctx.cfg.get('divmod'), P.ref_divmod), (lambda a: st.rake(a, st)) if ctx.cfg.get('rake') else (lambda a: (0, a)),
                             cover=[acc['contrib'][i] + acc['front'][i] for i in range(n)])
         ctx.counters['terminals_compared'] += 1
+        # hands discarded by the kill step: judged on the cards shown (as the log tells them), none of them may be a hand that
+        # would have been awarded chips had it stayed in
+        killed = [o.player_index for o in st.operations if type(o).__name__ == 'HandKilling']
+        if killed:
+            live2 = list(live)
+            hands2 = [h if h is not None else [[None] * len(tn)] * nb for h in hands]
+            for j in killed:
+                live2[j] = True
+                hj = P.shown_cards(st.operations, j)
+                if getattr(self.strength, 'takes_board', False):
+                    hands2[j] = [[self.strength(hj, boards[b], t) for t in tn] for b in range(nb)]
+                else:
+                    hands2[j] = [[self.strength(hj + boards[b], t) for t in tn] for b in range(nb)]
+            exp2, _ = P.award(n, acc['contrib'], acc['pooled'], live2, hands2, nb, len(tn),
+                              C.DIVMODS.get(ctx.cfg.get('divmod'), P.ref_divmod), lambda a: (0, a),
+                              cover=[acc['contrib'][i] + acc['front'][i] for i in range(n)])
+            ctx.counters['terminals_with_killed_hands_judged_on_shown_cards'] += 1
+            if exp2 is not None:
+                for j in killed:
+                    if exp2[j] > 0:
+                        ctx.violation('killed-hand-wins-on-the-cards-shown', f'player {j} was killed but on the cards shown '
+                                      f'({[P.shown_cards(st.operations, i) for i in range(n)]}, boards {boards}) his hand is awarded {exp2[j]}',
+                                      sig=(self.prop, 'killed-hand-wins-on-the-cards-shown'))
         if exp is None:
             ctx.counters['undetermined_' + info] += 1
             return
@@ -213,6 +241,18 @@ def jobs(tier, seed):
                 out.append(_j(f'chips-{chips}' if chips != 'pairs' else 'caller-supplied-divmod',
                               C.custom((3, 3, 3) if boards == 2 else (2, 3, 5), TWO, deck='KUHN9', hand_types=ht, antes=1,
                                        blinds=(1, 2), boards=boards, plan=plan, **kw), opts={'raises': 'minmax'}))
+    # hands are judged on the cards shown: hold'em cash games, all-in before the river, showdown by hand with partial shows (the
+    # first hole card only) - the hidden card would have won (pairs the board), the shown cards lose
+    from .. import dealplan as D
+    manual_show = ['ANTE_POSTING', 'BET_COLLECTION', 'BLIND_OR_STRADDLE_POSTING', 'CARD_BURNING', 'HOLE_DEALING', 'BOARD_DEALING',
+                   'RUNOUT_COUNT_SELECTION', 'HAND_KILLING', 'CHIPS_PUSHING', 'CHIPS_PULLING']
+    for stacks, holes in [((2, 3), [['Ah', 'Kd'], ['Qc', 'Qs']]), ((3, 2), [['Qc', 'Qs'], ['Ah', 'Kd']]),
+                          ((2, 3, 4), [['Ah', 'Kd'], ['Qc', 'Qs'], ['Jc', 'Ts']])]:
+        cfg = C.nt(stacks, mode='cash', autos=manual_show)
+        place = {('hole', i): h for i, h in enumerate(holes)}
+        place[('board', 0)] = ['Kc', '7d', '2s', '5h', '9c']
+        out.append(_j('cash-partial-shows', dict(cfg, plan=D.plan(D.destinations(cfg), place)),
+                      opts={'raises': 'minmax', 'show': (None, True, 'partial')}, real=True, dev_bound=4))
     # eight-handed stud checked down: the deck cannot supply eight seventh-street cards, the street is dealt as one community
     # card, and the pots go to the best hands made of seven own cards... plus that card (real hand types, independent evaluator)
     std = [r + u for r in '23456789TJQKA' for u in 'cdhs']
@@ -251,7 +291,8 @@ real_strength_hb.takes_board = True
 def run_job(job):
     if job.get('real'):
         r, ctx = sx.run(job, [PotsMonitor('C02', strength=real_strength)], validated='terminals_compared')
-        r['counters']['community_card_terminals'] = sum(1 for _ in [0] if r['counters'].get('terminals_compared'))
+        if job['family'].startswith('stud-8'):
+            r['counters']['community_card_terminals'] = sum(1 for _ in [0] if r['counters'].get('terminals_compared'))
         return r
     r, ctx = sx.run(job, [PotsMonitor('C02')], validated='terminals_compared')
     return r
